@@ -584,7 +584,7 @@ func genC03(tier string, seed uint64, emit func(string)) {
 	// requests: the next request is answered like the first, and so are the ones behind it
 	gaps := []int{31000}
 	if tier == "thorough" {
-		gaps = []int{31000, 61000, 121000, 301000}
+		gaps = []int{31000, 46000} // (a case has to finish within the 60 s the shard watchdog of bin/check allows)
 	}
 	for _, g := range gaps {
 		first, rest := reqS("PING"), append(append([]byte{}, reqS("ECHO", "after-idle")...), reqS("PING")...)
